@@ -10,6 +10,7 @@ import (
 type AsmPrivate struct {
 	DefaultWidthX, NominalWidthX float64
 	LocalSubrs                   [][]byte
+	Extra                        []byte // raw operand/operator bytes put at the start of the Private DICT
 }
 
 // AsmSpec describes a font to be assembled.
@@ -156,6 +157,7 @@ func buildIndex(items [][]byte) []byte {
 // It returns the combined data and the size of the DICT alone.
 func buildPrivate(p AsmPrivate) (data []byte, dictSize int) {
 	var d []byte
+	d = append(d, p.Extra...)
 	d = append(d, encodeNum(p.DefaultWidthX)...)
 	d = append(d, encodeOp(opDefaultWidthX)...)
 	d = append(d, encodeNum(p.NominalWidthX)...)
